@@ -26,6 +26,13 @@ def zip (f : Rat → Rat → Rat) (a b : Mat) : Option Mat :=
 /-- `np.sum(M, axis=-1)` -/
 def sumRows (m : Mat) : List Rat := m.rows.map fun r => r.foldr (· + ·) 0
 
+/-- `np.prod(M, axis=-1)` -/
+def prodRows (m : Mat) : List Rat := m.rows.map fun r => r.foldr (· * ·) 1
+
+/-- an elementwise function of the array and a row vector broadcast over the columns (`g(M / v)` with `v` of length `ncols`, as in
+    `np.cos(x / sqrt_i)`): entry `(r, i)` becomes `f i M[r][i]`; `f` stands for `a ↦ g(a / v[i])` -/
+def mapIdxCols (f : Nat → Rat → Rat) (m : Mat) : Mat := { ncols := m.ncols, rows := m.rows.map fun r => r.mapIdx f }
+
 def accRow : Rat → List Rat → List Rat
   | _, [] => []
   | acc, a :: as => (acc + a) :: accRow (acc + a) as
